@@ -47,13 +47,13 @@ use whirlpool::state::{DynamicTickArray, DynamicTickArrayLoader, FixedTickArray,
 
 const N: usize = 88;
 const HDR: usize = 60; // 8 discriminator + 4 start + 32 whirlpool + 16 bitmap
-const DYN_MIN: usize = 148;
-const FIX_LEN: usize = 9988;
+pub(super) const DYN_MIN: usize = 148;
+pub(super) const FIX_LEN: usize = 9988;
 /// end of the Anchor overlay: the loader struct is MAX_LEN (10 004, discriminator included) bytes laid over data[8..]
 const A_END: usize = 8 + DynamicTickArray::MAX_LEN;
 /// end of the Pinocchio overlay (struct laid over data[0..])
 const P_END: usize = std::mem::size_of::<PDyn>();
-const BUF: usize = 10048;
+pub(super) const BUF: usize = 10048;
 const SENTINEL: u8 = 0x5A;
 const E_TICK_NOT_FOUND: i64 = 6009;
 const E_INVALID_SEQUENCE: i64 = 6023;
@@ -222,7 +222,7 @@ fn p_update(t: &decode::Tick) -> PTickUpdate {
         reward_growths_outside: t.reward_growths_outside,
     }
 }
-fn from_atick(t: ATick) -> decode::Tick {
+pub(super) fn from_atick(t: ATick) -> decode::Tick {
     decode::Tick {
         initialized: t.initialized,
         liquidity_net: t.liquidity_net,
@@ -232,7 +232,7 @@ fn from_atick(t: ATick) -> decode::Tick {
         reward_growths_outside: t.reward_growths_outside,
     }
 }
-fn from_ptick(t: &PTick) -> decode::Tick {
+pub(super) fn from_ptick(t: &PTick) -> decode::Tick {
     decode::Tick {
         initialized: t.initialized(),
         liquidity_net: t.liquidity_net(),
@@ -242,13 +242,13 @@ fn from_ptick(t: &PTick) -> decode::Tick {
         reward_growths_outside: t.reward_growths_outside(),
     }
 }
-fn a_code(e: anchor_lang::error::Error) -> i64 {
+pub(super) fn a_code(e: anchor_lang::error::Error) -> i64 {
     match e {
         anchor_lang::error::Error::AnchorError(a) => a.error_code_number as i64,
         anchor_lang::error::Error::ProgramError(_) => -3,
     }
 }
-fn p_code(e: UnifiedError) -> i64 {
+pub(super) fn p_code(e: UnifiedError) -> i64 {
     match e {
         UnifiedError::Anchor(a) => a_code(a),
         UnifiedError::Pinocchio(_) => -2,
@@ -296,14 +296,14 @@ struct World {
     pf: Vec<u8>,
 }
 
-fn a_dyn(b: &[u8]) -> &DynamicTickArrayLoader {
+pub(super) fn a_dyn(b: &[u8]) -> &DynamicTickArrayLoader {
     DynamicTickArrayLoader::load(&b[8..])
 }
 fn a_dyn_mut(b: &mut [u8]) -> &mut DynamicTickArrayLoader {
     DynamicTickArrayLoader::load_mut(&mut b[8..])
 }
 // same casts as pinocchio/state/whirlpool/tick_array/loader.rs (no public constructor exists)
-fn p_dyn(b: &[u8]) -> &PDyn {
+pub(super) fn p_dyn(b: &[u8]) -> &PDyn {
     assert!(b.len() >= P_END);
     unsafe { &*(b.as_ptr() as *const PDyn) }
 }
@@ -312,7 +312,7 @@ fn p_dyn_mut(b: &mut [u8]) -> &mut PDyn {
     unsafe { &mut *(b.as_mut_ptr() as *mut PDyn) }
 }
 // same as state/tick_array.rs: bytemuck::from_bytes(&data[8..]) on the packed, align-1 zero-copy struct
-fn a_fix(b: &[u8]) -> &FixedTickArray {
+pub(super) fn a_fix(b: &[u8]) -> &FixedTickArray {
     assert!(b.len() == FIX_LEN);
     unsafe { &*(b[8..].as_ptr() as *const FixedTickArray) }
 }
@@ -320,7 +320,7 @@ fn a_fix_mut(b: &mut [u8]) -> &mut FixedTickArray {
     assert!(b.len() == FIX_LEN);
     unsafe { &mut *(b[8..].as_mut_ptr() as *mut FixedTickArray) }
 }
-fn p_fix(b: &[u8]) -> &PFix {
+pub(super) fn p_fix(b: &[u8]) -> &PFix {
     assert!(b.len() == FIX_LEN);
     unsafe { &*(b.as_ptr() as *const PFix) }
 }
@@ -329,7 +329,7 @@ fn p_fix_mut(b: &mut [u8]) -> &mut PFix {
     unsafe { &mut *(b.as_mut_ptr() as *mut PFix) }
 }
 
-fn guarded<T>(f: impl FnOnce() -> Result<T, i64>) -> Result<T, i64> {
+pub(super) fn guarded<T>(f: impl FnOnce() -> Result<T, i64>) -> Result<T, i64> {
     match catch_unwind(AssertUnwindSafe(f)) {
         Ok(r) => r,
         Err(_) => Err(E_PANIC),
@@ -750,6 +750,9 @@ fn case_key(cfg: &Cfg, base: &St, tail: Tail, ops: &[(u8, u8)]) -> String {
 }
 
 pub fn replay(case: &Value) -> Result<(), String> {
+    if case["kind"].as_str() == Some("live") {
+        return super::c13_live::replay(case);
+    }
     let cfg = Cfg { ts: case["ts"].as_u64().ok_or("bad case")? as u16, start: case["start"].as_i64().ok_or("bad case")? as i32 };
     let mut base: St = [0; N];
     let b = case["base"].as_str().ok_or("bad case")?.as_bytes();
@@ -1192,5 +1195,9 @@ pub fn run(ctx: &Ctx) -> Report {
     r.assume("a de-initialising update is TickUpdate::default() (what next_tick_modify_liquidity_update produces); a non-default update with initialized=false would be stored by the fixed array and dropped by the dynamic one");
     r.assume("account resizing follows the handlers: +112 zeroed bytes before an initialising update, -112 after a de-initialising one (rent/realloc at handler level is C12/C05)");
     r.assume("queries are deterministic functions of the account image; at sequence depth 3 the full query sweep runs once per distinct abstract state, image equality and touched-slot queries after every op");
+    // the live part: the same comparison through the instructions that decide the account length (c13_live.rs)
+    if clean {
+        super::c13_live::run_part(ctx, &mut r, ctx.pick(60.0, 700.0));
+    }
     r
 }
